@@ -168,9 +168,42 @@ inline long needed_for_pixels(Seed const& s)
     if (fmt == "pnm")
     {
         char m = char(s.bytes[1]);
-        if (m == '1' || m == '2' || m == '3') { long e = end; while (e > 0 && isspace(s.bytes[size_t(e - 1)])) --e; return e; }
+        if (m == '1' || m == '2' || m == '3')
+        {
+            // the last token may lose trailing digits and still be a number: only its first character is needed
+            long e = end; while (e > 0 && isspace(s.bytes[size_t(e - 1)])) --e;
+            if (m != '1') while (e > 1 && !isspace(s.bytes[size_t(e - 2)])) --e;
+            return e;
+        }
     }
     return end;
+}
+// bytes the raster of a raw (non run-length) seed needs when one dimension field is replaced; -1 = cannot tell
+inline long needed_with_dimension(Seed const& s, std::string const& field, long value)
+{
+    long w = field == "width" ? value : s.w, h = field == "height" ? value : s.h;
+    long begin = -1, end = -1; std::string kind;
+    for (auto const& r : s.regions) { std::string n = r.name; if (n == "pixels" || n == "raster") { begin = r.begin; end = r.end; kind = n; } }
+    if (begin < 0) return -1;
+    std::string fmt = s.format;
+    if (fmt == "bmp") { long bpp = s.prop("bpp"); return begin + ((w * bpp + 31) / 32) * 4 * (h - 1) + (w * bpp + 7) / 8; }
+    if (fmt == "targa") return begin + w * h * s.channels;
+    if (fmt == "pnm")
+    {
+        char m = char(s.bytes[1]);
+        if (m == '4') return begin + ((w + 7) / 8) * h;
+        if (m == '5' || m == '6') return begin + w * h * s.channels;      // seeds use maxval <= 255
+        // ascii: count the tokens the raster holds (P1: characters 0/1)
+        long tokens = 0; bool in_tok = false;
+        for (long i = begin; i < end; ++i)
+        {
+            bool sp = isspace(s.bytes[size_t(i)]) != 0;
+            if (m == '1') { if (!sp) ++tokens; }
+            else { if (!sp && !in_tok) ++tokens; in_tok = !sp; }
+        }
+        return w * h * s.channels > tokens ? long(s.bytes.size()) + 1 : 0;
+    }
+    return -1;
 }
 inline long header_end(Seed const& s) { for (auto const& r : s.regions) if (std::string(r.name) == "header") return r.end; return -1; }
 
@@ -198,6 +231,13 @@ template <class Tag, class NativeImg>
 Obs run_ep(int ep, int dev, ioc::Source const& src, Seed const& seed, unsigned char fill)
 {
     Obs o;
+    // dimensions the file declares (through GIL's own header parser; if that throws, so will the read below)
+    gil::point_t declared(seed.w, seed.h);
+    if (ep == EP_VIEW || ep == EP_CONVERT_VIEW)
+    {
+        try { ioc::with_dev(dev, src, [&](auto& d) { auto be = gil::read_image_info(d, Tag()); declared = gil::point_t(std::max<long>(0, long(be._info._width)), std::max<long>(0, long(be._info._height))); }); }
+        catch (...) {}
+    }
     try
     {
         ioc::with_dev(dev, src, [&](auto& d) {
@@ -213,14 +253,16 @@ Obs run_ep(int ep, int dev, ioc::Source const& src, Seed const& seed, unsigned c
                 NativeImg img(seed.w, seed.h);
                 std::memset(img._memory, fill, img._allocated_bytes);
                 paint_stack(fill); gil::read_view(d, gil::view(img), Tag());
-                o.data = view_digest(gil::const_view(img)); break;
+                // a destination larger than the declared image is legal; which part of it GIL fills is not specified
+                // (top-left, or the bottom rows for top-down TARGA), so pixels are compared only for an exact fit
+                o.data = (declared.x == seed.w && declared.y == seed.h) ? view_digest(gil::const_view(img)) : std::string("declared-image-smaller-than-view"); break;
             }
             case EP_CONVERT_IMAGE: { gil::rgb8_image_t img; paint_stack(fill); gil::read_and_convert_image(d, img, Tag()); o.data = view_digest(gil::const_view(img)); break; }
             case EP_CONVERT_VIEW:
             {
                 gil::rgb8_image_t img(seed.w, seed.h, P8(fill, fill, fill), 0);
                 paint_stack(fill); gil::read_and_convert_view(d, gil::view(img), Tag());
-                o.data = view_digest(gil::const_view(img)); break;
+                o.data = (declared.x == seed.w && declared.y == seed.h) ? view_digest(gil::const_view(img)) : std::string("declared-image-smaller-than-view"); break;
             }
             case EP_SCANLINE:
             {
@@ -291,7 +333,8 @@ void run_cases(Emit& e, Seed const& seed, std::vector<Case> const& cases, Opts c
                     {
                         long orig = c.field == "width" ? seed.w : seed.h;
                         // a larger declared dimension needs more data than the file holds (top-down TARGA/BMP use |height|)
-                        if (c.value > orig && c.value < 0x8000 && (ep == EP_IMAGE_RGB8 || ep == EP_IMAGE_RGBA8 || ep == EP_IMAGE_GRAY8 || ep == EP_CONVERT_IMAGE || ep == EP_SCANLINE))
+                        long need_dim = needed_with_dimension(seed, c.field, c.value);
+                        if (c.value > orig && c.value < 0x8000 && need_dim > long(c.bytes.size()) && (ep == EP_IMAGE_RGB8 || ep == EP_IMAGE_RGBA8 || ep == EP_IMAGE_GRAY8 || ep == EP_CONVERT_IMAGE || ep == EP_SCANLINE))
                             e.fail("silent-accept:inflated-dimension", vh::S() << c.field << " " << orig << " -> " << c.value);
                     }
                 }
